@@ -141,21 +141,19 @@ theorem cons_arrayPushAt (next : Nat) (xs : List Tok) (i : Int) (p : Nat) :
     have hle : j.toNat ≤ xs.length := by omega
     exact ids_perm ((perm_insertIdx _ _ hle).trans (perm_append_singleton _ _).symm)
 
-/-- List_Push_At conserves only when it does not raise (known finding otherwise) -/
-theorem cons_listPushAt (next : Nat) (xs : List Tok) (i : Int) (p : Nat)
-    (hok : (listPushAt next xs i p).out = .ok) :
+theorem cons_listPushAt (next : Nat) (xs : List Tok) (i : Int) (p : Nat) :
     let r := listPushAt next xs i p
     Conserves xs r.val r.issued r.retired ∧ FreshFrom next r.issued := by
-  simp only [listPushAt] at hok ⊢
+  simp only [listPushAt]
   by_cases hi : i = 0
   · simp only [hi, if_true]
     refine ⟨?_, rfl⟩
     simp only [Conserves, List.append_nil]
     exact ids_perm (perm_append_singleton _ _).symm
-  · simp only [hi, if_false] at hok ⊢
-    generalize (if i < 0 then (xs.length : Int) + i else i) = j at hok ⊢
+  · simp only [hi, if_false]
+    generalize (if i < 0 then (xs.length : Int) + i else i) = j
     by_cases hb : j < 0 ∨ j ≥ (xs.length : Int)
-    · simp [hb] at hok
+    · simp [hb, Conserves, FreshFrom]
     · simp only [hb, if_false]
       refine ⟨?_, rfl⟩
       simp only [Conserves, List.append_nil]
